@@ -50,10 +50,23 @@ def seeds():
     return "\n".join(rows)
 
 
+def counts():
+    commits = {re.match(r"fixed: property=C\d+ (\w+) ", l).group(1) for l in kf["fixed"]}
+    man = json.load(open(os.path.join(HERE, "MANIFEST.json")))
+    metas = [json.load(open(m)) for m in glob.glob(os.path.join(HERE, "seeded", "*", "meta.json"))]
+    caught = sum(1 for m in metas if any(v == 1 for v in (m.get("checks_on_patched_tree") or {}).values()))
+    neutral = sum(1 for m in metas if "behaviour-preserving" in (m.get("note") or ""))
+    return (f"State at the end of the implementation phase: {len(man['checks'])} of 20 properties have a registered check "
+            f"(`not_applicable`: {len(man['not_applicable'])}); {len(commits)} `fix:` commits in /repo repair {len({re.match(r'fixed: property=C[0-9]+ [0-9a-f]+ (F-[0-9a-z]+)', l).group(1) for l in kf['fixed']})} "
+            f"genuine defects (the unedited suite passes after each); {len(kf['findings'])} genuine defects are listed as known "
+            f"findings; {len(metas)} seeded changes were confirmed, of which {caught} are caught by at least one check and "
+            f"{neutral} became behaviour-preserving through a later fix.")
+
+
 def main():
     p = os.path.join(HERE, "DESIGN.md")
     s = open(p).read()
-    for name, fn in (("fixes", fixes), ("findings", findings), ("mutants", mutants), ("seeds", seeds)):
+    for name, fn in (("counts", counts), ("fixes", fixes), ("findings", findings), ("mutants", mutants), ("seeds", seeds)):
         s = re.sub(rf"(<!-- BEGIN:{name} -->).*?(<!-- END:{name} -->)", lambda m: m.group(1) + "\n" + fn() + "\n" + m.group(2), s, flags=re.S)
     open(p, "w").write(s)
 
